@@ -8,7 +8,8 @@
    The model is a transliteration: it mirrors what the C code DOES (including what it does wrong).
    Local variables of htp_mpartp_parse (pos, startpos, data_return_pos) are explicit arguments of
    `parseLoop`; `goto STATE_SWITCH` is the `.sw` entry (which, as in C, skips the `pos < len` test
-   of the outer loop, so `data[pos]` can be read at `pos == len`: that byte is the parameter `oob`).
+   of the outer loop; since the F3 repair in /repo no state reads `data[pos]` at `pos == len`: the one
+   jump that could arrive there with the chunk used up - after a complete boundary match - returns).
 
    Not modelled: allocation failure paths, extract_files (mkstemp/write/umask), gave_up_data,
    hook return codes (the hook is assumed to return HTP_OK). -/
@@ -272,9 +273,9 @@ def partHandleData (p : Parser) (part : Part) (data : Bytes) (isLine : Bool) : P
         else if part.name.isSome then { p with cur := some { part with type := T_TEXT }, dataPieces := [] }
         else { p with cur := some part }
       else
-        -- `pending_header_line = line` keeps the WHOLE re-assembled buffer (line ending included);
-        -- only the bstr_dup_mem(data, len) path drops it
-        let fresh := if assembled then lineData else lineData.take len
+        -- the line ending is dropped on both paths: bstr_adjust_len(line, len) for a re-assembled line
+        -- (S17, repaired in /repo), bstr_dup_mem(data, len) otherwise
+        let fresh := lineData.take len
         match p.pending with
         | none => { p with pending := some fresh, cur := some part }
         | some pend =>
@@ -288,6 +289,8 @@ def partHandleData (p : Parser) (part : Part) (data : Bytes) (isLine : Bool) : P
     if part.type == T_FILE then
       let (p, part) := runFileHook p part (some data)
       { p with cur := some part }
+    else if hasFlag p.flags SEEN_LAST_BOUNDARY && part.type == T_UNKNOWN then
+      { p with cur := some part }     -- already stored above (F5, repaired in /repo: it used to be stored twice)
     else { p with dataPieces := p.dataPieces ++ [data], cur := some part }
 
 /-- htp_mpartp_handle_data -/
@@ -317,6 +320,7 @@ def finalizeData (p : Parser) (part : Part) : Parser × Part :=
   if part.type == T_FILE then runFileHook p part none
   else if p.dataPieces.length > 0 then
     ({ p with dataPieces := [] }, { part with value := some p.dataPieces.flatten })
+  else if part.type == T_TEXT then (p, { part with value := some [] })   -- an empty value, not NULL (repaired in /repo)
   else (p, part)
 
 /-- htp_mpartp_handle_boundary -/
@@ -364,32 +368,33 @@ inductive Entry where
   | dataIn   -- the test of the inner while loop of STATE_DATA
   deriving Repr, DecidableEq, Inhabited
 
-/-- htp_mpartp_parse on one chunk. `oob` is the byte found at data[len] (read when a boundary match
-    completes on the very last byte of the chunk). -/
-def parseLoop (data : Bytes) (oob : UInt8) : Nat → Entry → Parser → (pos startpos drp : Nat) → Parser
+/-- htp_mpartp_parse on one chunk. -/
+def parseLoop (data : Bytes) : Nat → Entry → Parser → (pos startpos drp : Nat) → Parser
   | 0, _, p, _, _, _ => { p with stuck := true }
   | fuel + 1, .top, p, pos, sp, drp =>
-    if pos < data.length then parseLoop data oob fuel .sw p pos sp drp else p
+    if pos < data.length then parseLoop data fuel .sw p pos sp drp else p
   | fuel + 1, .dataIn, p, pos, sp, drp =>
     let len := data.length
     if pos < len then
-      let c := data.getD pos oob
+      let c := data.getD pos 0
       if c == CR then
+        -- a CR set aside at the end of the previous chunk is data after all (S16, repaired in /repo)
+        let p := if p.crAside != 0 then { handleData p [CR] false with crAside := 0 } else p
         if pos + 1 == len then
-          parseLoop data oob fuel .dataIn { p with crAside := 1 } (pos + 1) sp drp
-        else if data.getD (pos + 1) oob == LF then
+          parseLoop data fuel .dataIn { p with crAside := 1 } (pos + 1) sp drp
+        else if data.getD (pos + 1) 0 == LF then
           let pos := pos + 2
-          parseLoop data oob fuel .sw
+          parseLoop data fuel .sw
             { p.raise CRLF_LINE with candPos := pos - sp, matchPos := 2, state := .boundary } pos sp pos
         else
-          parseLoop data oob fuel .dataIn { p with crAside := 0 } (pos + 1) sp drp
+          parseLoop data fuel .dataIn { p with crAside := 0 } (pos + 1) sp drp
       else if c == LF then
         let pos := pos + 1
         let p := if p.crAside == 0 then p.raise LF_LINE else p.raise CRLF_LINE
-        parseLoop data oob fuel .sw { p with candPos := pos - sp, matchPos := 2, state := .boundary } pos sp pos
+        parseLoop data fuel .sw { p with candPos := pos - sp, matchPos := 2, state := .boundary } pos sp pos
       else
         let p := if p.crAside != 0 then { handleData p [CR] false with crAside := 0 } else p
-        parseLoop data oob fuel .dataIn p (pos + 1) sp drp
+        parseLoop data fuel .dataIn p (pos + 1) sp drp
     else
       -- no more data: process the chunk (minus a trailing CR that was set aside); break; outer loop ends
       handleData p (slice data sp (pos - p.crAside)) false
@@ -397,17 +402,17 @@ def parseLoop (data : Bytes) (oob : UInt8) : Nat → Entry → Parser → (pos s
     let len := data.length
     match p.state with
     | .init => p
-    | .data => parseLoop data oob fuel .dataIn p pos sp drp
+    | .data => parseLoop data fuel .dataIn p pos sp drp
     | .boundary =>
       if pos < len then
-        if data.getD pos oob != p.boundary.getD p.matchPos 0 then
+        if data.getD pos 0 != p.boundary.getD p.matchPos 0 then
           -- mismatch
           let p := processAside p false
           if p.mode == .line then
             let p := handleData p (slice data sp drp) true
-            parseLoop data oob fuel .sw { p with state := .data } pos drp drp
+            parseLoop data fuel .sw { p with state := .data } pos drp drp
           else
-            parseLoop data oob fuel .sw { p with state := .data } drp sp drp
+            parseLoop data fuel .sw { p with state := .data } drp sp drp
         else
           let pos := pos + 1
           let p := { p with matchPos := p.matchPos + 1 }
@@ -415,58 +420,58 @@ def parseLoop (data : Bytes) (oob : UInt8) : Nat → Entry → Parser → (pos s
             -- boundary match
             let p := processAside p true
             let dlen := drp - sp
-            let dlen := if dlen > 0 && data.getD (sp + dlen - 1) oob == LF then dlen - 1 else dlen
-            let dlen := if dlen > 0 && data.getD (sp + dlen - 1) oob == CR then dlen - 1 else dlen
+            let dlen := if dlen > 0 && data.getD (sp + dlen - 1) 0 == LF then dlen - 1 else dlen
+            let dlen := if dlen > 0 && data.getD (sp + dlen - 1) 0 == CR then dlen - 1 else dlen
             let p := handleData p (slice data sp (sp + dlen)) true
             let p := { p with boundaryCount := p.boundaryCount + 1 }
             let p := if hasFlag p.flags SEEN_LAST_BOUNDARY then p.raise PART_AFTER_LAST_BOUNDARY else p
             let p := handleBoundary p
-            parseLoop data oob fuel .sw { p with state := .isLast2 } pos sp drp
-          else parseLoop data oob fuel .sw p pos sp drp
+            -- (the fix for F3) the byte deciding "last boundary?" may only arrive with the next chunk
+            if pos < len then parseLoop data fuel .sw { p with state := .isLast2 } pos sp drp
+            else { p with state := .isLast2 }
+          else parseLoop data fuel .sw p pos sp drp
       else
         -- chunk exhausted while matching: keep the unprocessed tail for later
         { p with boundaryPieces := p.boundaryPieces ++ [data.drop sp] }
     | .isLast2 =>
-      if data.getD pos oob == DASH then parseLoop data oob fuel .top { p with state := .isLast1 } (pos + 1) sp drp
-      else parseLoop data oob fuel .top { p with state := .eatLws } pos sp drp
+      if data.getD pos 0 == DASH then parseLoop data fuel .top { p with state := .isLast1 } (pos + 1) sp drp
+      else parseLoop data fuel .top { p with state := .eatLws } pos sp drp
     | .isLast1 =>
-      if data.getD pos oob == DASH then
-        parseLoop data oob fuel .top { p.raise SEEN_LAST_BOUNDARY with state := .eatLws } (pos + 1) sp drp
+      if data.getD pos 0 == DASH then
+        parseLoop data fuel .top { p.raise SEEN_LAST_BOUNDARY with state := .eatLws } (pos + 1) sp drp
       else
-        parseLoop data oob fuel .top { p.raise BBOUNDARY_NLWS_AFTER with state := .eatLws } pos sp drp
+        parseLoop data fuel .top { p.raise BBOUNDARY_NLWS_AFTER with state := .eatLws } pos sp drp
     | .eatLws =>
-      let c := data.getD pos oob
-      if c == CR then parseLoop data oob fuel .top { p with state := .eatLwsCr } (pos + 1) sp drp
+      let c := data.getD pos 0
+      if c == CR then parseLoop data fuel .top { p with state := .eatLwsCr } (pos + 1) sp drp
       else if c == LF then
-        parseLoop data oob fuel .top { p.raise LF_LINE with state := .data } (pos + 1) (pos + 1) drp
-      else if isLws c then parseLoop data oob fuel .top (p.raise BBOUNDARY_LWS_AFTER) (pos + 1) sp drp
-      else parseLoop data oob fuel .top (p.raise BBOUNDARY_NLWS_AFTER) (pos + 1) sp drp
+        parseLoop data fuel .top { p.raise LF_LINE with state := .data } (pos + 1) (pos + 1) drp
+      else if isLws c then parseLoop data fuel .top (p.raise BBOUNDARY_LWS_AFTER) (pos + 1) sp drp
+      else parseLoop data fuel .top (p.raise BBOUNDARY_NLWS_AFTER) (pos + 1) sp drp
     | .eatLwsCr =>
-      if data.getD pos oob == LF then
-        parseLoop data oob fuel .top { p.raise CRLF_LINE with state := .data } (pos + 1) (pos + 1) drp
+      if data.getD pos 0 == LF then
+        parseLoop data fuel .top { p.raise CRLF_LINE with state := .data } (pos + 1) (pos + 1) drp
       else
-        parseLoop data oob fuel .top { p.raise BBOUNDARY_NLWS_AFTER with state := .eatLws } pos sp drp
+        parseLoop data fuel .top { p.raise BBOUNDARY_NLWS_AFTER with state := .eatLws } pos sp drp
 
 /-- every candidate line start is tried once; a try costs at most boundary_len + 1 byte steps,
     a byte step at most three calls of `parseLoop` -/
 def parseFuel (p : Parser) (data : Bytes) : Nat := 4 * (data.length + 2) * (p.boundary.length + 3) + 16
 
-/-- htp_mpartp_parse(parser, data, len); the byte after the buffer is `oob` -/
-def parse (p : Parser) (data : Bytes) (oob : UInt8 := 0) : Parser :=
-  parseLoop data oob (parseFuel p data) .top p 0 0 0
+/-- htp_mpartp_parse(parser, data, len) -/
+def parse (p : Parser) (data : Bytes) : Parser :=
+  parseLoop data (parseFuel p data) .top p 0 0 0
 
 /-- htp_mpartp_finalize -/
 def finalize (p : Parser) : Parser :=
+  -- set-aside data is processed even when no part is open yet (F4, repaired in /repo)
+  let p := if p.cur.isSome || p.boundaryPieces.length > 0 || p.crAside != 0 then processAside p false else p
   match p.cur with
   | none => { p with boundaryPieces := [] }
-  | some _ =>
-    let p := processAside p false
-    match p.cur with
-    | none => { p with boundaryPieces := [] }   -- unreachable: process_aside never drops the current part
-    | some part =>
-      let (p, part) := finalizeData p part
-      let p := if part.type != T_EPILOGUE then p.raise INCOMPLETE else p
-      { p with cur := some part, boundaryPieces := [] }
+  | some part =>
+    let (p, part) := finalizeData p part
+    let p := if part.type != T_EPILOGUE then p.raise INCOMPLETE else p
+    { p with cur := some part, boundaryPieces := [] }
 
 /-- htp_mpartp_create + htp_mpartp_init_boundary: the stored boundary is CR LF "--" boundary and the
     parser starts in STATE_BOUNDARY at match position 2 (the first boundary needs no CRLF) -/
@@ -549,11 +554,11 @@ structure Result where
   deriving Repr, DecidableEq, Inhabited
 
 /-- find_boundary; create; parse every chunk; finalize; read the htp_multipart_t -/
-def run (contentType : Bytes) (chunks : List Bytes) (oob : UInt8 := 0) : Result :=
+def run (contentType : Bytes) (chunks : List Bytes) : Result :=
   match findBoundary contentType with
   | (none, flags) => { boundary := none, flags := flags }
   | (some b, flags) =>
-    let p := finalize (chunks.foldl (fun p c => parse p c oob) (create b flags))
+    let p := finalize (chunks.foldl parse (create b flags))
     { boundary := some b, stored := some p.boundary, flags := p.flags, boundaryCount := p.boundaryCount,
       parts := p.done.reverse ++ p.cur.toList, events := p.events.reverse, stuck := p.stuck }
 
